@@ -85,7 +85,7 @@ class Check:
     # -- output
     def finish(self, level_text=None):
         wall = time.time() - self.t0
-        evid_path = os.path.join(VERIF, "evidence", f"{self.pid}.json")
+        evid_path = os.path.join(os.environ.get("VERIF_EVIDENCE_DIR") or os.path.join(VERIF, "evidence"), f"{self.pid}.json")
         os.makedirs(os.path.dirname(evid_path), exist_ok=True)
         keys = set()
         for i in self.instances:
